@@ -58,7 +58,7 @@ var dirPerms = []os.FileMode{0o755, 0o700, 0o777, 0o750}
 
 // genTree: a chain of directories `depth` deep (short names, so that host paths stay below
 // PATH_MAX) with files, directories, symlinks and hard links hanging off it.
-func genTree(r *rand.Rand, depth int) []RawNode {
+func genTree(r *rand.Rand, depth int, wide bool) []RawNode {
 	var nodes []RawNode
 	var files []string
 	used := map[string]bool{}
@@ -112,6 +112,12 @@ func genTree(r *rand.Rand, depth int) []RawNode {
 	}
 	dir := ""
 	side(dir, true)
+	if wide {
+		add(RawNode{Path: "wide", Kind: 'D', Perm: 0o755})
+		for i := 0; i < 300; i++ {
+			add(RawNode{Path: fmt.Sprintf("wide/w%03d", i), Kind: 'F', Perm: 0o644, Data: []byte{byte(i)}})
+		}
+	}
 	for d := 0; d < depth; d++ {
 		n := string(rune('a'+r.Intn(26))) + fmt.Sprint(r.Intn(10))
 		if d%7 == 3 {
@@ -341,7 +347,11 @@ func clientChecks(c *Case, u *go9p.Ufs, r *rand.Rand, a *agg, replay any) error 
 	for i := 0; i < 12; i++ {
 		picks = append(picks, in[r.Intn(len(in))])
 	}
-	for _, e := range picks {
+	mutate := len(picks)
+	if len(in) > 250 { // a wide tree: stat every object, so that every pair of coexisting qids is compared
+		picks = append(picks, in...)
+	}
+	for pi, e := range picks {
 		if !strings.HasPrefix(e.HostP, "/mid/root/") {
 			continue
 		}
@@ -359,10 +369,8 @@ func clientChecks(c *Case, u *go9p.Ufs, r *rand.Rand, a *agg, replay any) error 
 			continue
 		}
 		var ds []string
-		if d.Qid.Path != e.Ino {
-			if s := c.N.checkQid(d.Qid.Path, e.Ino, la); s != "" {
-				ds = append(ds, s)
-			}
+		if s := c.N.checkQid(d.Qid.Path, e.Ino, la); s != "" {
+			ds = append(ds, s)
 		}
 		if k := qidKind(d.Qid.Type); k != e.K {
 			ds = append(ds, fmt.Sprintf("kind(qid.type) %s, host %s", k, e.K))
@@ -388,7 +396,7 @@ func clientChecks(c *Case, u *go9p.Ufs, r *rand.Rand, a *agg, replay any) error 
 			c.disc("c16", "c16:client-fstat:missing-resolves", fmt.Sprintf("FStat(%q) succeeds", rel+" missing"), false)
 		}
 		// create and remove below a deep directory through the client, same on the twin
-		if e.K == "D" {
+		if e.K == "D" && pi < mutate {
 			nn := genName(r, false)
 			p9 := rel + "/" + nn
 			perm := somePerms[r.Intn(len(somePerms))]
@@ -456,7 +464,7 @@ func TestRandom(t *testing.T) {
 		if depth > maxDepth {
 			maxDepth = depth
 		}
-		nodes := genTree(r, depth)
+		nodes := genTree(r, depth, i%5 == 1)
 		cc := CaseCfg{Tree: "random", Dotu: dotu, Alphabet: 0, Fids: []int{1, 2, 3, 4, 5}, Prop: prop}
 		var ufs *go9p.Ufs
 		c, err := NewCaseWith(fmt.Sprintf("%s/%d", base, i), cc,
